@@ -82,7 +82,17 @@ fn get_node_cover_range_impl(
     let node_range = node.range();
     (node_range.start <= range.start
         && node_range.end >= range.end
-        && (node.is::<Markup>() || node.is::<Expr>() || node.is::<Pattern>()))
+        && (node.is::<Markup>() || node.is::<Expr>() || node.is::<Pattern>())
+        && !is_callee(&node))
     .then(|| (node.span(), mode))
     // It returns span to avoid problems with borrowing.
+}
+
+/// The callee of a call is laid out as part of the enclosing dot chain. Formatted on its own it may get wrapped
+/// in parentheses, and `(a.b)(c)` is not `a.b(c)`.
+fn is_callee(node: &LinkedNode<'_>) -> bool {
+    node.index() == 0
+        && node
+            .parent()
+            .is_some_and(|parent| parent.kind() == SyntaxKind::FuncCall)
 }
